@@ -101,6 +101,9 @@ extern "C" int sim_main(int argc, char** argv) {
     long nkeys = atol(argv[2]); hc::rng g(atol(argv[3]));
     ygm::container::map<int64_t, int> mi(world); ygm::container::map<std::string, int> ms(world);
     ygm::container::set<int64_t> si(world); ygm::container::set<std::string> ss(world);
+    ygm::container::map<double, int> md(world); ygm::container::set<double> sd(world);
+    { // keys that compare equal are ONE key: +0.0 and -0.0 must have the same owner
+      std::ostringstream z; z << "zeros " << md.owner(0.0) << " " << md.owner(-0.0) << " " << sd.owner(0.0) << " " << sd.owner(-0.0); hc::out(z.str()); }
 
     std::ostringstream o; o << "hash";
     for (long k = 0; k < nkeys; ++k) {
@@ -108,6 +111,8 @@ extern "C" int sim_main(int argc, char** argv) {
       std::string sk; size_t L = (k == 0) ? 0 : g.below(24); for (size_t j = 0; j < L; ++j) sk.push_back((char)(32 + g.below(95)));
       size_t hi = std::hash<int64_t>{}(ik), hs = std::hash<std::string>{}(sk);
       o << " " << hi << ":" << mi.owner(ik) << ":" << si.owner(ik) << " " << hs << ":" << ms.owner(sk) << ":" << ss.owner(sk);
+      if (k % 4 == 0) { double dk = (k == 0) ? 0.0 : (k == 4) ? -0.0 : (k == 8) ? 1e-300 : (double)(int64_t)g.next() / 977.0;
+        o << " " << std::hash<double>{}(dk) << ":" << md.owner(dk) << ":" << sd.owner(dk); }
     }
     hc::out(o.str());
   }
